@@ -45,9 +45,6 @@ def expected_membership(case, P):
         for vid, what in case['cells'].items():
             out[vid] = bool(neg) if what == 'neg' else bool(pos)
         return out
-    if kind == 'deck':
-        from . import deck as deckmod
-        return deckmod.expected_from_case(case, P)
     raise ValueError(kind)
 
 
@@ -58,9 +55,6 @@ def actual_membership(case, t4, ev, key):
         if vid not in t4.vols or t4.vols[vid].fictive:
             return False
         return bool(ev.vol(vid))
-    if kind == 'deck':
-        from . import deck as deckmod
-        return deckmod.actual_from_case(case, t4, ev, key)
     raise ValueError(kind)
 
 
